@@ -450,6 +450,12 @@ func (c *EvalCtx) eval(e *SExpr) Value {
 		r := ex.invoke(st, iv, ex.methodOf("LinkOrIRI", "GetLink"), nil, fakeCall(ex.world, "GetLink"))
 		ex.panics = ex.panics[:np]
 		return r
+	case "idOf":
+		iv, ok := c.eval(args[0]).(*IfaceVal)
+		if !ok {
+			panic(unsupported("contract: idOf of non-item " + args[0].String()))
+		}
+		return App("m.GetID", SStr, ex.abstractItem(iv))
 	case "isNilItem":
 		iv, ok := c.eval(args[0]).(*IfaceVal)
 		if !ok {
